@@ -63,15 +63,23 @@ def run(tier):
         src = os.path.join(wd, cid + ".in"); open(src, "wb").write(D)
         out = os.path.join(wd, cid + ".zck")
         lines = ["case %s 45" % cid]
-        if fdmode:
+        # descriptors 0..fdmode-1 are closed before the output is opened (the output gets a low number) or, every second
+        # time, after it (the library's temporary file gets descriptor 0)
+        if fdmode and i % 2 == 0:
             lines.append("closelow %d" % fdmode)
-        lines += ["ctx 0", "open 0 %s rwt" % out, "init_write 0 0"] + writegen.cfg_lines(cfg, 0, wd, cid)
+        lines += ["ctx 0", "open 0 %s rwt" % out]
+        if fdmode and i % 2 == 1:
+            lines.append("closelow %d" % fdmode)
+        lines += ["init_write 0 0"] + writegen.cfg_lines(cfg, 0, wd, cid)
         if i % 3 == 1:
             # option calls that are refused (minimum above the maximum, maximum below the minimum, a negative minimum), the
             # error cleared, and the writer used on: a refused call must leave nothing behind
             mx = cfg.get("max", 10485760); mn = cfg.get("min", 1)
             rej = [["ioption 0 %d %d" % (writegen.OPT["min"], mx + 1)], ["ioption 0 %d %d" % (writegen.OPT["max"], mn - 1)] if mn > 1 else ["ioption 0 %d -1" % writegen.OPT["min"]],
-                   ["ioption 0 %d -1" % writegen.OPT["min"], "clear_error 0", "ioption 0 %d %d" % (writegen.OPT["min"], mx + 7)]][(i // 3) % 3]
+                   ["ioption 0 %d -1" % writegen.OPT["min"], "clear_error 0", "ioption 0 %d %d" % (writegen.OPT["min"], mx + 7)],
+                   # options that do not exist, values that are not allowed, options of the reading side on a writer
+                   ["ioption 0 50 1", "clear_error 0", "ioption 0 999 1", "clear_error 0", "ioption 0 5 7", "clear_error 0", "ioption 0 3 -1", "clear_error 0", "ioption 0 2 1", "clear_error 0", "ioption 0 %d 0" % writegen.OPT["max"]],
+                   ["ioption 0 5 0", "ioption 0 1001 3", "clear_error 0", "ioption 0 100 77"]][(i // 3) % 5]
             lines += rej + ["clear_error 0"]
         pos = 0; cuts = []
         for k in seg:
